@@ -1,8 +1,12 @@
+pub mod c01;
 pub mod c02;
+pub mod c03;
 
 pub fn run(prop: &str, tier: &str) -> i32 {
     match prop {
+        "C01" => c01::run(tier),
         "C02" => c02::run(tier),
+        "C03" => c03::run(tier),
         _ => {
             eprintln!("unknown property {}", prop);
             3
